@@ -28,6 +28,9 @@ type Engine struct {
 	KnownOpen map[string]bool
 	Stats     *smt.Stats
 	Tokens    chan struct{} // worker slots shared by all harness instances
+	// Stop is set once some harness instance has reported a finding: a
+	// violation decides the check, the other instances stop exploring
+	Stop int32
 }
 
 // Load type-checks the listed packages of the repository together with the
@@ -86,6 +89,7 @@ type HarnessCfg struct {
 	AutoShared map[string]bool // gobmc pass 2: memory slots to treat as shared
 	MaxRecv   int // gobmc: bound on values received from one channel on one thread path
 	MaxEvents int // gobmc: bound on the number of events of one thread path
+	StopOnFinding bool // a finding of this harness decides the check: everything else stops
 	Split     int // decisions near the root whose alternatives are explored by separate workers (-1: none)
 }
 
@@ -163,6 +167,9 @@ func (eng *Engine) Run(cfg HarnessCfg) (*Explorer, error) {
 			eng.Tokens <- struct{}{}
 			defer func() { <-eng.Tokens }()
 			ex, err := NewExplorer(cfg.Solver, cfg.IntMode, eng.Stats, cfg.TimeoutMs)
+			if ex != nil {
+				ex.StopFlag, ex.StopOnFinding = &eng.Stop, cfg.StopOnFinding
+			}
 			if err != nil {
 				mu.Lock()
 				firstErr = err
@@ -286,6 +293,10 @@ func (eng *Engine) explore(ex *Explorer, pkg *ssa.Package, fn *ssa.Function, cfg
 		}
 		if time.Since(t0) > cfg.Deadline {
 			ex.inconclusive("deadline", fmt.Sprintf("exploration exceeded %v", cfg.Deadline))
+			break
+		}
+		if atomic.LoadInt32(&eng.Stop) != 0 {
+			ex.Abandoned = true
 			break
 		}
 	}
